@@ -464,6 +464,7 @@ def r5(ctx, rule: str = "C03-R5", full_model_only: bool = False) -> None:
 # ------------------------------------------------------------------------- R6
 def r6(ctx) -> None:
     repo = ctx.repo
+    lib.check_filled_items_fresh(ctx, "C03-R6")
     rc = ctx.fn(EST, "EstimationProvider.retrieve_clps")
     fl = lib.flow(rc, repo)
     p = rc.params()
